@@ -177,6 +177,23 @@ CLAIMS = {
        "trusted and cross-checked numerically (tools/ecmath.py, Jose/Crypto/Ec.lean).",
   technique="Lean 4 theorem proving (group algebra) + differential correspondence + independent numeric oracle",
   design="§6 C13"),
+ "C19": dict(
+  text="Machine-checked proof on an executable model of `jose fmt` (cmd/fmt.c): the option list is folded left to right "
+       "over a stack machine whose values live in a heap (so the aliasing the manual relies on is modelled); proved for "
+       "every option list and every starting state: the run stops at the first failing option and later options have no "
+       "effect (state and outputs are those at the failure), the exit status is the 1-based index of the failing option "
+       "(index of the -X for a -X not followed by an assertion or left dangling), 0 otherwise; -X inverts exactly the "
+       "next assertion and is used up; options that need TOP/PREV fail (never crash) on an empty/short stack or wrong "
+       "types; -t's clamping spec incl. negative counts and non-array TOP; in-place options keep the stack, pushes add "
+       "exactly one value, -U removes exactly TOP. Three-way differential run (80k programs quick): the real CLI "
+       "(forked in-process under ASan/UBSan, files and stdin included) vs the Lean model vs an executable transcription "
+       "of the manual (tools/fmtspec.py) used as the direct oracle.",
+  note="Trusted: Lean kernel, standard axioms; getopt_long argument parsing is mirrored in Jose.Fmt.parseArgv and "
+       "compared, not verified; jansson load/dump modelled (JsonParse/dump) and compared; status values above 255 "
+       "wrap in the OS exit status (status compared modulo 256, stated in DESIGN). F13 (-t on a non-array TOP / "
+       "negative counts) was found by this check and fixed.",
+  technique="Lean 4 theorem proving (induction over the option list) + three-way differential correspondence",
+  design="§6 C19"),
 }
 
 NOT_YET = "check not built yet (framework under construction); will be claimed when its Lean theorems and correspondence exist"
